@@ -225,6 +225,7 @@ def run(chk):
                        'in {1.5e-7, 10, 50, 90 % (, 1 - 1.5e-7)}; loads around the shifted knee, plus off-lattice probes 2^-20 next to the knee) and proves the algebraic laws; each state is evaluated through pd.Series(...).woehler (transform, cycles, load incl. integer '
                        'typed cycles, array/Series forms, Miner variants, non-mutation of the source object and of the signal) and a sample through DataFrame x Series broadcasting. '
                        'Non-trivial = goal probability differs from native and life finite.')
+    chk.cov['rule'] += " Also: tail probabilities Phi(+-4 z_0.9), probes 2^-20 next to the knee, unsigned integer cycle numbers beyond the knee, security factors with the load distribution's rows in another order."
     chk.cov['exhaustive'] = True
     chk.assumptions += ['powers of two are exact in float64; the code\'s 10**(...) shift is inexact, comparisons at rel 1e-9; at the knee of a k_2=inf curve after such a shift either branch is accepted (Tie)',
                         'failure probabilities restricted to Phi(k z_0.9), k in {-4,-1,0,1,4} (probit differences are multiples of z_0.9)']
